@@ -418,7 +418,7 @@ theorem bind_spec (s : State) (ns name : String) (uid : Nat) (node : String) (ch
         have hluid : pod.uid = uid := by
           simp only [good_bindChecksListerUID, Bool.true_and, Bool.and_eq_true, bne_iff_ne, ne_eq, not_and,
             Decidable.not_not] at hguard1
-          exact hguard1 huid0 l0
+          exact hguard1 ⟨huid0, l0⟩
         split
         · exact ⟨h, UnassignsWithin.refl s _⟩
         · rename_i infos hinf
